@@ -25,14 +25,18 @@ MANIFEST = dict(
           "for ALL symbols the positional Cromer-Mann reader serves the values under the labels a1..a5 c b1..b5 of the "
           "symbol's own #L line, KeyError otherwise; element/ion (Z, c) is served the row headed Z with charge suffix c; "
           "c + sum a_i is within 0.05 of Z - charge.  Advisory: the dipole sets J are 1 at Q=0 except Nd2+ (1.0138) and "
-          "Dy3+ (1.1317), proved with the witness.  Tie: exhaustive correspondence, public + private table: 119 elements "
+          "Dy3+ (1.1317), proved with the witness.  Real-valued part (standard axioms of Coq's reals only): the interval "
+          "evaluators of the form factors (Model/C20FF.v, Coq-Interval at 50 bits) enclose, for every coefficient list and "
+          "every Q, A exp(-a s^2)+B exp(-b s^2)+C exp(-c s^2)+D, s^2 times that, and c+sum a_i exp(-b_i s^2) with "
+          "s=Q/4pi; the acceptance rule is sound.  Tie: exhaustive correspondence, public + private table: 119 elements "
           "x (radius, uncertainty, structure, K_alpha, K_beta1, magnetic_ff with all 98 charge states x 5 sets + M and "
-          "the six form factors at Q=0), 330+ getCMformula symbols (211 listed + unlisted), f0(0) of all 737 "
-          "elements/ions per table; bit-exact for table reads.  Form factors on Q in [0,30] (31 points quick, 241 "
-          "thorough) are compared with A exp(-a s^2)+... recomputed with math.exp from a third reading of the text."),
+          "the six form factors at Q=0), 330+ getCMformula symbols (211 listed + unlisted), f0(0) of all 618 "
+          "elements/ions per table, bit-exact for table reads; every magnetic set and every Cromer-Mann species at "
+          "Q in {1,7,30} (quick) / {0..30, 1/8, 239/8} (thorough) against the enclosure computed inside Coq, within "
+          "2^-30 of the sum of magnitudes.  Independently, form factors on Q in [0,30] (31 points quick, 241 thorough) "
+          "are compared with the formula recomputed with math.exp from a third reading of the text."),
     note=("Modelled not verified: Python float(), str.split/strip/capitalize, eval of the Fortran call text, dict order, "
-          "numpy exp/sum.  The exponential itself is not modelled in Coq; the Q-grid comparison is done in Python "
-          "against the third reading (relative tolerance 1e-11 of the sum of magnitudes)."),
+          "numpy exp/sum/dot.  Q is sent as an exact rational; the implementation uses the double nearest to pi."),
     technique=("Coq proof by kernel-evaluated sweep over regenerated tables against an independent re-reading + generic "
                "lemmas; exhaustive model/implementation correspondence; third-reading direct evaluation of the property"),
     ref="DESIGN.md section 7 C20")
